@@ -167,7 +167,9 @@ pub fn generate(rng: &mut Rng, thorough: bool) -> Vec<Case> {
                     if !thorough && rng.below(4) != 0 {
                         continue;
                     }
-                    let url = format!("https://{}{}{}{}", h, p, pa, q);
+                    // a fragment is never sent to the server (RFC 9110 4.2.3 / 7.1: the target excludes it)
+                    let frag = ["", "", "#section-2", "#", "#a?b=c"][rng.below(5) as usize];
+                    let url = format!("https://{}{}{}{}{}", h, p, pa, q, frag);
                     if let Ok(u) = url::Url::parse(&url) {
                         let authority = u.authority().to_string();
                         let path = format!("{}{}", u.path(), u.query().map(|s| format!("?{s}")).unwrap_or_default());
